@@ -1,4 +1,5 @@
 import RPVerif.Lemmas.Sched
+import RPVerif.Lemmas.NodeList
 
 /-!
 # C03 — Released resources come back exactly once and completely
@@ -122,5 +123,13 @@ theorem C03_app_slots_witness :
                                    app := some [{ node := 0, cores := [0], gpus := [], lfs := 0, mem := 0 }] }]],
            unsched := [[0]] }] []).1.activeCnt = -1 := by
   decide
+
+/-! ## the application-level slot finder -/
+
+open RPVerif.NodeList in
+/-- giving a slot back to its node restores precisely what was taken: occupations of all cores and
+    GPUs, storage and memory (for every node state and every slot) -/
+theorem C03_nodelist_release_inverse (n : ANode) (s : ASlot) : deallocate (allocate n s) s = n :=
+  deallocate_allocate n s
 
 end RPVerif.C03
